@@ -122,12 +122,19 @@ def o_stack(inp):
     if w is not None and all(isinstance(f.value, str) for b in lib.blocks if type(b) is Entry for f in b.fields):
         fmt = None if w == "default" else libgen.build_format(w)
         st0 = libgen.format_state(fmt) if fmt is not None else None
-        t1 = bibtexparser.write_string(lib, bibtex_format=fmt)
+        wkw = {}
+        if inp.get("prepend") is not None:
+            # prepended middlewares are built in copy mode: the default stack must still work on a copy
+            wkw["prepend_middleware"] = [libgen.make_middleware(s_, inplace=False) for s_ in inp["prepend"]]
+            cls.add("write-with-prepend")
+        t1 = bibtexparser.write_string(lib, bibtex_format=fmt, **wkw)
         if canon(lib) != c0:
             return (("write-mutated-library", _diff(c0, canon(lib)), "library unchanged by write_string"), True, sorted(cls))
         if fmt is not None and libgen.format_state(fmt) != st0:
             return (("write-mutated-format", repr(libgen.format_state(fmt)), repr(st0)), True, sorted(cls))
-        t2 = bibtexparser.write_string(lib, bibtex_format=fmt)
+        if "prepend_middleware" in wkw:
+            wkw["prepend_middleware"] = [libgen.make_middleware(s_, inplace=False) for s_ in inp["prepend"]]
+        t2 = bibtexparser.write_string(lib, bibtex_format=fmt, **wkw)
         if t1 != t2:
             return (("write-twice-differs", repr(t2), repr(t1)), True, sorted(cls))
         cls.add("write")
@@ -155,6 +162,8 @@ def w_write_grid(acc):
     fmts = ["default", {"value_column": "auto"}, {"indent": "", "trailing_comma": True, "block_separator": "\n"}, {"value_column": 20, "parsing_failed_comment": "% bad {n}"}]
     for text, prep, w in itertools.product(DOCS, PREPS, fmts):
         acc.run("stack", o_stack, {"text": text, "prep": prep, "stack": [], "write": w}, True)
+        for pre in ([], [{"mw": "SortFieldsAlphabetically"}], [{"mw": "NormalizeFieldKeys"}, {"mw": "MonthInt"}]):
+            acc.run("stack", o_stack, {"text": text, "prep": prep, "stack": [], "write": w, "prepend": pre}, True)
 
 
 def w_random(acc, n, seed):
@@ -176,6 +185,7 @@ def w_random(acc, n, seed):
         "prep": st.sampled_from(PREPS),
         "stack": st.lists(st.sampled_from(specs), min_size=1, max_size=3),
         "write": st.one_of(st.none(), st.just("default"), libgen.st_format()),
+        "prepend": st.one_of(st.none(), st.just([]), st.lists(st.sampled_from([{"mw": "SortFieldsAlphabetically"}, {"mw": "NormalizeFieldKeys"}, {"mw": "MonthAbbreviation"}]), max_size=2)),
     })
     harness.run_hyp(acc, "stack", o_stack, strat, n, seed)
 
@@ -204,4 +214,4 @@ def run(chk):
         "stage whose output differs from its input, or a write."
     )
     chk.required_classes = ["plain-failed-block", "duplicate-key-block", "duplicate-field-block", "mw-error:InvalidNameError", "mw-error:PartialMiddlewareException",
-                            "list-value", "nameparts-value", "write", "incompatible-stage-raised"]
+                            "list-value", "nameparts-value", "write", "write-with-prepend", "incompatible-stage-raised"]
